@@ -93,6 +93,7 @@ func cmdCheck(args []string) int {
 		return 2
 	}
 	defer os.RemoveAll(tmp)
+	defer os.Remove(filepath.Join(os.TempDir(), fmt.Sprintf("gfsim-corpus-%d.json", os.Getpid())))
 
 	known := loadKnown()
 	// regression replays of open findings
